@@ -67,6 +67,7 @@ fn templates() -> Vec<T> {
         t("interval_chain", "nest", sel, "", "INTERVAL ", "'1' DAY", "", "", "", ", ", &["generic", "postgresql", "snowflake"], &["parse_interval", "parse_prefix"]),
         t("not_chain", "nest", sel, "", "NOT ", "1", "", "", "", ", ", &["generic", "sqlite"], &["parse_not", "parse_prefix", "parse_subexpr"]),
         t("minus_chain", "nest", sel, "", "- ", "1", "", "", "", ", ", &["generic", "mysql"], &["parse_prefix", "parse_subexpr"]),
+        t("prior_chain", "nest", "SELECT a FROM t START WITH a = 1 CONNECT BY ", "a = ", "PRIOR ", "b", "", "", "", ", ", &["generic", "snowflake", "mssql"], &["parse_prefix", "parse_subexpr", "parse_connect_by"]),
         t("explain_nested", "nest", "", "", "EXPLAIN ", "SELECT 1", "", "", "", "; ", &["generic", "mysql", "postgresql"], &["parse_explain", "parse_statement"]),
         t("type_array_angle", "nest", ct, "c ", "ARRAY<", "INT", ">", "", ")", ", ", &["bigquery", "generic"], &["parse_data_type", "parse_data_type_helper", "parse_sub_type"]),
         t("type_struct_angle", "nest", ct, "c ", "STRUCT<a ", "INT", ">", "", ")", ", ", &["bigquery", "generic"], &["parse_data_type", "parse_data_type_helper", "parse_struct_type_def", "parse_struct_field_def"]),
@@ -130,6 +131,22 @@ fn sibling_sql(t: &T, d: usize, m: usize) -> String {
     }
     s.push_str(t.outer_suffix);
     s
+}
+
+/// `order` is a dotted list of builder calls applied to Parser::new(dialect).
+fn build_in_order<'a>(order: &str, dl: &'a dyn sqlparser::dialect::Dialect, lim: usize, sql: &str,
+                      toks: &[sqlparser::tokenizer::Token]) -> Result<Parser<'a>, ParserError> {
+    let mut p = Parser::new(dl);
+    for step in order.split('.').skip(1) {
+        p = match step {
+            "limit" => p.with_recursion_limit(lim),
+            "options" => p.with_options(sqlparser::parser::ParserOptions::new().with_trailing_commas(true)),
+            "sql" => p.try_with_sql(sql)?,
+            "tokens" => p.with_tokens(toks.to_vec()),
+            other => panic!("unknown builder step {other}"),
+        };
+    }
+    Ok(p)
 }
 
 fn classify<X>(r: &Result<X, ParserError>) -> (&'static str, String) {
@@ -337,6 +354,51 @@ fn main() {
                     }
                 }
                 json!({"status": "ok", "rounds": lim + 5, "shallow_depth": dd, "first": seq})
+            }));
+            println!("{}", out);
+        }
+        "builders" => {
+            // every order of the builder calls must give the same parser: the configured limit
+            // (and the options) survive the other calls.  args: template deep dialect limit mode
+            let tt = find(&a[2]);
+            let deep: usize = a[3].parse().unwrap();
+            let (dialect, limit, mode) = (a[4].clone(), a[5].clone(), a[6].clone());
+            vh::quiet_panics();
+            let out = run_in(&mode, move || guarded(move || {
+                use sqlparser::tokenizer::Tokenizer;
+                let dl = vh::dialect_by_name(&dialect);
+                let lim: usize = limit.parse().unwrap();
+                let sql = nest_sql(&tt, deep);
+                let toks = match Tokenizer::new(&*dl, &sql).tokenize() { Ok(t) => t, Err(e) => return json!({"status": "tokenizer_error", "msg": e.to_string()}) };
+                let orders = ["new.limit.sql", "new.sql.limit", "new.limit.options.sql", "new.options.limit.sql", "new.sql.limit.options",
+                    "new.limit.sql.options", "new.options.sql.limit", "new.sql.options.limit", "new.limit.tokens", "new.tokens.limit",
+                    "new.limit.options.tokens", "new.limit.tokens.options"];
+                let mut first: Option<(&str, &'static str)> = None;
+                let mut seen = vec![];
+                for name in &orders {
+                    let mut p = match build_in_order(name, &*dl, lim, &sql, &toks) { Ok(p) => p, Err(e) => return json!({"status": "tokenizer_error", "msg": e.to_string()}) };
+                    let configured = p.verif_remaining_depth();
+                    let wants_options = name.contains("options");
+                    let has_options = p.verif_trailing_commas();
+                    let r = p.parse_statements();
+                    let (c, _) = classify(&r);
+                    std::mem::forget(r);
+                    seen.push(json!([name, c, configured]));
+                    if configured != lim {
+                        return json!({"status": "builder_order", "order": name, "configured_limit": lim, "remaining_depth_of_built_parser": configured, "outcome": c, "sql_depth": deep});
+                    }
+                    if wants_options != has_options {
+                        return json!({"status": "builder_order", "order": name, "options_requested": wants_options, "options_in_built_parser": has_options});
+                    }
+                    match first {
+                        None => first = Some((name, c)),
+                        Some((n0, c0)) if c0 != c => {
+                            return json!({"status": "builder_order", "order": name, "outcome": c, "reference_order": n0, "reference_outcome": c0, "configured_limit": lim, "sql_depth": deep});
+                        }
+                        _ => {}
+                    }
+                }
+                json!({"status": "ok", "orders": seen.len(), "outcome": first.map(|x| x.1), "seen": seen})
             }));
             println!("{}", out);
         }
